@@ -21,7 +21,8 @@ CONSTANTS Group, Size, KeepAtHead, PersistFeeAtHead
 
 VARIABLES cfg, s, g, last
 
-Par(level, pay, fee, keep, pf) == [level |-> level, pay |-> pay, fee |-> fee, keep |-> keep, persistFee |-> pf]
+Par(level, pay, fee, keep, pf) == [level |-> level, pay |-> pay, fee |-> fee, keep |-> keep, persistFee |-> pf,
+                                   ns |-> 0]
 
 StructReqs(p) == {Req("Insert", dt, a) : dt \in AllDts(p), a \in Amounts(p, {TOP - 1, TOP})} \cup {RestartReq}
 PayReqs(p)     == {Req(op, dt, a) : op \in {"AddInvoice", "AddKeysend"}, dt \in AllDts(p), a \in Amounts(p, {TOP})}
@@ -46,7 +47,14 @@ NodeSets == IF Size = "large"
                     <<"mixed", Ctl(2, 3, 3), Ctl(2, 3, 2)>>, <<"mixed", Ctl(1, 4, 2), Ctl(2, 2, 2)>> >>
             ELSE << <<"pay", Ctl(2, 3, 3), Unl(2, 3)>>, <<"fee", Unl(2, 3), Ctl(2, 3, 3)>>,
                     <<"mixed", Ctl(2, 3, 2), Ctl(2, 3, 2)>> >>
+\* retries: one named invoice hash and one named keysend hash besides fresh ones, submitted through
+\* the node (Add*) and through the approver (Propose*), same or another amount, restart anywhere
+RetryCfg(p, kp, pf) ==
+  [P |-> [Par("node", p, Unl(p.B, p.K), kp, pf) EXCEPT !.ns = 1],
+   reqs |-> {RestartReq} \cup {ReqH(op, dt, a, h) : op \in InvoiceOps \cup KeysendOps, dt \in {0, 1, W(p), p.K * p.B},
+                                                   a \in {1, p.L}, h \in {0, 1}}]
 NodeCfgs(kp, pf) == [i \in DOMAIN NodeSets |-> NodeCfg(NodeSets[i][1], NodeSets[i][2], NodeSets[i][3], kp, pf)]
+                      \o << RetryCfg(Ctl(2, 3, 2), kp, pf) >>
 
 Configs == IF Group = "sound"
            THEN SmallStruct \o (IF Size = "large" THEN LargeStruct ELSE <<>>) \o NodeCfgs(TRUE, TRUE)
@@ -57,13 +65,13 @@ P == Configs[cfg].P
 Init == /\ cfg \in DOMAIN Configs
         /\ s = InitState(Configs[cfg].P)
         /\ g = InitGhost(Configs[cfg].P)
-        /\ last = [op |-> "init", dt |-> 0, a |-> 0, ok |-> TRUE]
+        /\ last = [op |-> "init", dt |-> 0, a |-> 0, h |-> 0, ok |-> 1]
 
 Next == \E r \in Configs[cfg].reqs :
           LET o == Step(s, r, P) IN
           /\ s' = o.s
           /\ g' = Ghost(g, r, o.resp, P)
-          /\ last' = [op |-> r.op, dt |-> r.dt, a |-> r.a, ok |-> o.resp.ok]
+          /\ last' = [op |-> r.op, dt |-> r.dt, a |-> r.a, h |-> r.h, ok |-> Code(o.resp)]
           /\ UNCHANGED cfg
 
 Spec == Init /\ [][Next]_<<cfg, s, g, last>>
@@ -88,5 +96,5 @@ TypeOK == /\ Len(s.pay.b) = P.pay.K /\ Len(s.fee.b) = P.fee.K
 Covers == /\ (P.pay.L < TOP => CapSum(g.pay, 1, Len(g.pay)) <= Velocity(Rotate(s.pay, P.pay, s.now).b))
           /\ (P.fee.L < TOP => CapSum(g.fee, 1, Len(g.fee)) <= Velocity(Rotate(s.fee, P.fee, s.now).b))
 \* a refused request changes nothing observable (C10 at design level, modulo the lazy rotation)
-Frame == [][ (last'.ok = FALSE) => (Norm(s', P) = Norm([s EXCEPT !.now = s'.now], P)) ]_<<cfg, s, g, last>>
+Frame == [][ (last'.ok # 1) => (Norm(s', P) = Norm([s EXCEPT !.now = s'.now], P)) ]_<<cfg, s, g, last>>
 =============================================================================
